@@ -332,7 +332,7 @@ def o7(W, ob):
         cs = [s for f2, s in W.constructions('GgrsEvent', 'Disconnected') if f2 is f]
         ob.check(len(cs) == 1, '%s|forwards-disconnected' % short(f.path), 'Disconnected is forwarded once', 'GgrsEvent::Disconnected constructed %d times' % len(cs), where(f))
     # a stopped endpoint reports nothing: every emission in poll/handle_message requires Running (or the handshake state)
-    for name in (UDP + '::poll', UDP + '::handle_message'):
+    for name in (UDP + '::poll', UDP + '::handle_message', UDP + '::send_input'):
         f = W.fn(name)
         G = W.guards(f)
         for s in [s for f2, s in W.constructions('Event') if f2 is f]:
@@ -386,4 +386,5 @@ OBLIGATIONS = [
     ('C12.T', 'the endpoint\'s timer table', 'keep-alive, quality report and the interruption timers decide what lifecycle events are raised and when: per timer the field, duration, protocol state, action, re-arm site and writer set are read off poll() and compared with the table in rules/timers.py -- the action\'s guard is exactly `state & field + duration < now`, firing re-arms the timer on every path, nothing else writes the timestamp, every stored value is a clock reading, durations are the documented ones.', timers.rule),
     ('C12.V', 'no unreviewed condition in the pinned helpers', 'for each helper whose body this property\'s rules pin (tables/condition_terms.json), the terms its path conditions are built from (fields, parameters, call results -- no constants, operators or local names) are a subset of the reviewed vocabulary: one more `if` in front of a pinned result (a lock that may time out, "only while an endpoint is running") is reported; see rules/vocab.py', vocab.rule_for('C12')),
     ('C12.S', 'state inventory', 'every field of the structs this property\'s rules read (tables/state.json) is known, and is written only by its reviewed writers (or helpers only they call): a new field is new state across calls -- a cache, a flag, a stored deadline -- that nothing has shown to stay in step; a new writer is a second place that resets, re-arms or moves something; see rules/inventory.py', inventory.state_rule_for('C12')),
+    ('C12.K', 'call inventory', 'every reviewed call of a function that writes state (tables/call_edges.json, callers in the structs this property\'s rules read) is still made, directly or through helpers: a call deleted as redundant is reported; see rules/inventory.py', inventory.call_rule_for('C12')),
 ]
